@@ -73,7 +73,16 @@ Proof.
   intros H. unfold u32be. rewrite !bN_Nb by (apply N.mod_lt; lia).
   assert (E1 : (n / 65536 = n / 256 / 256)%N) by (rewrite N.div_div by lia; reflexivity).
   assert (E2 : (n / 16777216 = n / 256 / 256 / 256)%N) by (rewrite !N.div_div by lia; reflexivity).
-  rewrite E1, E2. clear E1 E2. zify. Z.div_mod_to_equations. lia.
+  rewrite E1, E2. clear E1 E2.
+  pose proof (N.div_mod n 256 ltac:(lia)) as D1.
+  pose proof (N.div_mod (n / 256) 256 ltac:(lia)) as D2.
+  pose proof (N.div_mod (n / 256 / 256) 256 ltac:(lia)) as D3.
+  assert (A : (n / 256 / 256 / 256 < 256)%N)
+    by (rewrite !N.div_div by lia; apply N.div_lt_upper_bound; lia).
+  rewrite (N.mod_small _ _ A).
+  generalize dependent (n / 256 / 256 / 256)%N. generalize dependent ((n / 256 / 256) mod 256)%N.
+  generalize dependent (n / 256 / 256)%N. generalize dependent ((n / 256) mod 256)%N.
+  generalize dependent (n / 256)%N. generalize dependent (n mod 256)%N. intros. lia.
 Qed.
 
 (* ---------- well-formed messages and their wire form ---------- *)
@@ -81,15 +90,15 @@ Definition wf_q (q : question) : Prop :=
   wf_name (q_name q) /\ (q_type q < 65536)%N /\ (q_class q < 65536)%N.
 Definition wf_rr (r : rr) : Prop :=
   wf_name (r_name r) /\ (r_type r < 65536)%N /\ (r_class r < 65536)%N
-  /\ (r_ttl r < 4294967296)%N /\ length (r_data r) < 65536.
+  /\ (r_ttl r < 4294967296)%N /\ (N.of_nat (length (r_data r)) < 65536)%N.
 Definition no_ptr_byte (d : bytes) : bool := forallb (fun b => negb (is_ptr b)) d.
 (* the complement of finding rdata-pointer-lookalike-rewritten *)
 Definition rdata_guard (r : rr) : Prop :=
   record_data_can_have_compression (r_type r) = true -> no_ptr_byte (r_data r) = true.
 Definition wf_msg (m : message) : Prop :=
   (m_id m < 65536)%N /\ (m_op_code m < 16)%N /\ (m_reserved m < 8)%N /\ (m_rcode m < 16)%N
-  /\ length (m_questions m) < 65536 /\ length (m_answers m) < 65536
-  /\ length (m_authorities m) < 65536 /\ length (m_additionals m) < 65536
+  /\ (N.of_nat (length (m_questions m)) < 65536)%N /\ (N.of_nat (length (m_answers m)) < 65536)%N
+  /\ (N.of_nat (length (m_authorities m)) < 65536)%N /\ (N.of_nat (length (m_additionals m)) < 65536)%N
   /\ Forall wf_q (m_questions m) /\ Forall wf_rr (m_answers m)
   /\ Forall wf_rr (m_authorities m) /\ Forall wf_rr (m_additionals m).
 Definition all_rrs (m : message) : list rr := m_answers m ++ m_authorities m ++ m_additionals m.
